@@ -18,9 +18,9 @@ def line(i):
     kind, sp, t, pat, acc = i
     return 'view %s %s pat=%s%s k=%s' % (kind, t, pat_str(pat), (' sp=%s' % sp) if sp is not None else '', acc)
 def t2(t): return 'i64'
-def sources(ntu=32):
+def sources(ntu=32, insts=None):
     tus = [[] for _ in range(ntu)]
-    for n, i in enumerate(instances()):
+    for n, i in enumerate(insts if insts is not None else instances()):
         kind, sp, t, pat, acc = i
         E = cxx_extents(t, pat); spv = 'md::dynamic_extent' if sp in (None, 'D') else str(sp)
         lay = {'left': 'md::layout_left', 'right': 'md::layout_right', 'stride': 'md::layout_stride', 'lpad': 'mdx::layout_left_padded<%s>' % spv, 'rpad': 'mdx::layout_right_padded<%s>' % spv}[kind]
@@ -31,3 +31,6 @@ def sources(ntu=32):
     srcs = [('view_tu%d.cpp' % i, '#include "viewsrv.hpp"\nusing namespace vh;\nvoid reg_view_%d() {\n%s\n}\n' % (i, '\n'.join(b))) for i, b in enumerate(tus)]
     srcs.append(('view_main.cpp', '#include "vh.hpp"\n' + ''.join('void reg_view_%d();\n' % i for i in range(ntu)) + 'int main() {\n' + ''.join('  reg_view_%d();\n' % i for i in range(ntu)) + '  return vh::serve();\n}\n'))
     return srcs
+
+def lite(insts):
+    return [i for i in insts if i[2] in ('i32', 'u8') and i[1] in (None, 'D')]
